@@ -39,6 +39,8 @@ def gen_case(rng, spaces=False):
     items = list(mounts.items())
     rng.shuffle(items)
     for i, (mp, fs) in enumerate(items):
+        if mp != "/" and rng.random() < 0.15:
+            mp = mp + "/"          # some tools print mount points with a trailing slash
         if fmt == "linux":
             lines.append(f"//srv{i}/share on {mp} type {fs} (rw,relatime,vers=3.0)" if fs == "cifs"
                          else f"/dev/sd{i} on {mp} type {fs} (rw,nosuid)")
